@@ -19,6 +19,7 @@ import (
 	"storj.io/drpc"
 	"storj.io/drpc/drpcerr"
 	"storj.io/drpc/drpcmux"
+	"storj.io/drpc/drpcpool"
 
 	"verifharness/census"
 	"verifharness/director"
@@ -995,6 +996,73 @@ func unknownRPC(id string, seed uint64) runner.Result {
 	return res
 }
 
+// pooledCalls: the same calls through a drpcpool handle, as applications that pool their connections
+// make them. A handler error (with or without a code, an unknown rpc) fails the one call; the
+// connection underneath stays open and serves the next call: nothing is dialed a second time.
+func pooledCalls(id string, seed uint64) runner.Result {
+	r := &payload.SplitMix{S: seed}
+	cfg := prog.GenConfig(r, false)
+	if cfg.Net.Cap == 0 {
+		cfg.Net.Cap = -1
+	}
+	mux := drpcmux.New()
+	p := &plan{k: 0, resp: []byte("ok")}
+	if err := mux.Register(&srv{p: p}, desc{}); err != nil {
+		return runner.Violation(id, "register", "Register failed: "+err.Error())
+	}
+	rg := rig.New(rig.Config{Net: cfg.Net, Client: cfg.Client, Server: cfg.Server}, mux)
+	defer rg.Teardown()
+	pool := drpcpool.New[string, drpcpool.Conn](drpcpool.Options{Capacity: payload.Pick(r, []int{0, 1, 4})})
+	defer pool.Close()
+	dials := 0
+	handle := pool.Get(context.Background(), "k", func(context.Context, string) (drpcpool.Conn, error) {
+		dials++
+		if dials > 1 {
+			return nil, errors.New("a second dial: the connection of the first was given up")
+		}
+		return rg.Conn, nil
+	})
+	n := 3 + r.Intn(5)
+	var hist, fails []string
+	for i := 0; i < n && len(fails) == 0; i++ {
+		kind := payload.Pick(r, []string{"ok", "plain-error", "coded-error", "unknown-rpc", "ok"})
+		if i == n-1 {
+			kind = "ok"
+		}
+		hist = append(hist, kind)
+		p.fail, p.k = nil, 0
+		rpc := "/svc/Unary"
+		switch kind {
+		case "plain-error":
+			p.fail = errors.New("plain failure")
+		case "coded-error":
+			p.fail = drpcerr.WithCode(errors.New("coded failure"), 9)
+		case "unknown-rpc":
+			rpc = "/svc/Missing"
+		}
+		var out Msg
+		err := handle.Invoke(context.Background(), rpc, enc{}, &Msg{B: []byte("x")}, &out)
+		switch {
+		case kind == "ok" && (err != nil || string(out.B) != "ok"):
+			fails = append(fails, fmt.Sprintf("call %d (%s) through the pool: err=%v answer=%q (dials so far: %d, first connection closed: %v)", i+1, kind, err, out.B, dials, rig.IsClosed(rg.Conn.Closed())))
+		case kind != "ok" && err == nil:
+			fails = append(fails, fmt.Sprintf("call %d (%s) returned nil", i+1, kind))
+		case kind == "plain-error" && err.Error() != "plain failure", kind == "coded-error" && (err.Error() != "coded failure" || drpcerr.Code(err) != 9):
+			fails = append(fails, fmt.Sprintf("call %d (%s) returned %s code %d", i+1, kind, rig.ErrStr(err), drpcerr.Code(err)))
+		}
+		if len(fails) == 0 && rig.IsClosed(rg.Conn.Closed()) {
+			fails = append(fails, fmt.Sprintf("after call %d (%s) the connection underneath the pool handle is closed", i+1, kind))
+		}
+	}
+	desc := fmt.Sprintf("%s | pooled-calls: %s", cfg.Desc, strings.Join(hist, ", "))
+	if len(fails) > 0 {
+		return runner.Violation(id, "error-identity:pooled-connection-not-usable-after-a-failed-call", desc+"\n"+strings.Join(fails, "\n"))
+	}
+	res := runner.Hold(id, desc, true)
+	res.Events = int64(n)
+	return res
+}
+
 func firstDiff(a, b string) int {
 	for i := 0; i < len(a) && i < len(b); i++ {
 		if a[i] != b[i] {
@@ -1021,6 +1089,10 @@ func gen(tier string, seed uint64) []runner.Scenario {
 		if i%25 == 0 {
 			id4 := fmt.Sprintf("shared-sentinel/%d", i)
 			out = append(out, runner.Scenario{ID: id4, Run: func() runner.Result { return sharedSentinel(id4, payload.Hash(seed, 0xC10C, uint64(i))) }})
+		}
+		if i%8 == 0 {
+			id8 := fmt.Sprintf("pooled-calls/%d", i)
+			out = append(out, runner.Scenario{ID: id8, Run: func() runner.Result { return pooledCalls(id8, payload.Hash(seed, 0xC110, uint64(i))) }})
 		}
 		if i%6 == 0 {
 			id7 := fmt.Sprintf("unknown-rpc/%d", i)
